@@ -41,7 +41,9 @@ pub fn run(ctx: &Ctx) -> Value {
     let times: Vec<NaiveTime> = vec![mk_time_any(0, 0), mk_time_any(86_399, 999_999_999), mk_time_any(86_399, 1_999_999_999), mk_time_any(43_200, 1_000_000_000), mk_time_any(59, 1_500_000_000), mk_time_any(86_399, 1_600_000_000)];
     // (sub-second parts near one second: sums of nanosecond fields reach beyond i32::MAX for leap-second operands)
     let durs: Vec<TimeDelta> = [0i128, 1, -1, NS, -NS, 86_400 * NS, -86_400 * NS, DUR_LIM, -DUR_LIM, DUR_LIM - 1, i64::MAX as i128, -(i64::MAX as i128) - 1,
-                                700_000_000, -700_000_000, 999_999_999, -999_999_999, NS + 999_999_999, -(NS + 999_999_999)].iter().map(|&d| mk_dur(d).unwrap()).collect();
+                                700_000_000, -700_000_000, 999_999_999, -999_999_999, NS + 999_999_999, -(NS + 999_999_999),
+                                // whole seconds next to the range ends (the ends are not whole seconds)
+                                DUR_LIM / NS * NS, -(DUR_LIM / NS * NS), (DUR_LIM / NS - 1) * NS, -(DUR_LIM / NS - 1) * NS, 2 * NS, -2 * NS].iter().map(|&d| mk_dur(d).unwrap()).collect();
     let offs: Vec<FixedOffset> = [0, 1, -1, 3600, -3600, 86_399, -86_399].iter().map(|&o| FixedOffset::east_opt(o).unwrap()).collect();
     macro_rules! call { ($op:expr, $args:expr, $body:expr) => { tw.emit(ev($op, $args, || $body)) }; }
     for round in 0..rounds {
